@@ -89,6 +89,20 @@ func (c *Ctx) term1(v ssa.Value, depth int) string {
 			}
 		} else {
 			name = "dyn"
+			// a call through a function-typed parameter of a helper that is being inlined: the function it was handed
+			if pr, ok := cc.Value.(*ssa.Parameter); ok {
+				for i := len(c.termSubstVals) - 1; i >= 0; i-- {
+					if av, ok := c.termSubstVals[i][pr]; ok {
+						if fv := funcValueOf(av); fv != nil && len(fv.FreeVars) == 0 {
+							name = fv.Name()
+							if j := strings.Index(name, "["); j > 0 {
+								name = name[:j]
+							}
+						}
+						break
+					}
+				}
+			}
 		}
 		args = append(args, cc.Args...)
 		// inlining mode: an unexported helper of the operator packages stands for what it returns
@@ -250,6 +264,49 @@ func evalBool(fn *ssa.Function, args []bool) (bool, bool) {
 }
 
 func truthTable(fn *ssa.Function, arity int) string {
+	if t := truthTable0(fn, arity); !strings.Contains(t, "?") {
+		return t
+	}
+	if theCtx != nil {
+		return theCtx.truthTableWalk(fn, arity)
+	}
+	return truthTable0(fn, arity)
+}
+
+// truthTableWalk: the same table by walking the function (a bound method value, a closure, a function that calls a
+// helper) on truth values.
+func (c *Ctx) truthTableWalk(fn *ssa.Function, arity int) string {
+	out := ""
+	n := 1 << arity
+	for i := 0; i < n; i++ {
+		args := make([]pval, arity)
+		for j := 0; j < arity; j++ {
+			args[j] = pval{k: pBool, b: i&(1<<(arity-1-j)) != 0}
+		}
+		p := &pinterp{c: c, budget: 20000, objects: true}
+		heap := newHeap()
+		if len(fn.FreeVars) > 0 {
+			binds := make([]pval, len(fn.FreeVars))
+			for k := range binds {
+				l := heap.alloc([]pval{{}})
+				binds[k] = pval{k: pElemAddr, i: l.i, j: 0}
+			}
+			p.nextFree = binds
+		}
+		res, _ := p.run(fn, args, 0, heap)
+		switch {
+		case p.aborted || len(res) != 1 || res[0].k != pBool:
+			out += "?"
+		case res[0].b:
+			out += "1"
+		default:
+			out += "0"
+		}
+	}
+	return out
+}
+
+func truthTable0(fn *ssa.Function, arity int) string {
 	out := ""
 	n := 1 << arity
 	for i := 0; i < n; i++ {
@@ -482,6 +539,12 @@ func (c *Ctx) checkBinaryKernel(name string, kernel *ssa.Function) string {
 			bad = fmt.Sprintf("element function has truth table %s (inputs 00,01,10,11), %s requires %s", tt, name, boolTables[name])
 		} else if !okOrder {
 			bad = "operands swapped on the way to the element loop"
+		}
+		if bad != "" {
+			// the kernel as a whole on two tensors of truth values, however it reaches its element loop
+			if known, tbad := c.booleanKernelTable(kernel, name); known {
+				bad = tbad
+			}
 		}
 	}
 	return bad
@@ -1026,6 +1089,20 @@ func ruleR7Unary(c *Ctx, prop string) {
 			c.decide(okT, "R7", key, site, "Tanh = tensor.Tanh(inputs[0])", "Tanh computes "+t)
 		case name == "Sigmoid":
 			okS := c.wrapperTerm(apply, "Div(k(1),Add(k(1),Exp(Neg(P0))))")
+			if !okS && c.applyTerm(apply) == "Sigmoid(P1[0])" {
+				// the wrapper reached through a helper: its own body is judged as before
+				for _, f := range c.libFns {
+					if fnPkgPath(f) == pkgOps && f.Name() == "Sigmoid" && f.Parent() == nil && f.Signature.Recv() == nil {
+						rets := returnsOf(f)
+						for i := len(rets) - 1; i >= 0; i-- {
+							if !isNilConst(rets[i].Results[0]) {
+								okS = c.term(rets[i].Results[0], 0) == "Div(k(1),Add(k(1),Exp(Neg(P0))))"
+								break
+							}
+						}
+					}
+				}
+			}
 			c.decide(okS, "R7", key, site, "Sigmoid = 1/(1+exp(-x)) on the whole tensor", "Sigmoid does not have the dependency shape 1/(1+exp(-x)): "+c.wrapperGot(apply))
 		case name == "Relu":
 			// which function is applied is R18's business; here: delegates inputs[0] to one library activation
@@ -1067,16 +1144,54 @@ func ruleR7Unary(c *Ctx, prop string) {
 // applyTerm: term of the tensor Apply returns as its single output on the success path.
 func (c *Ctx) applyTerm(apply *ssa.Function) string {
 	for _, r := range returnsOf(apply) {
-		sl, ok := r.Results[0].(*ssa.Slice)
-		if !ok {
-			continue
-		}
-		els := varargElems(sl)
-		if len(els) == 1 {
-			return c.term(els[0], 0)
+		if t, ok := c.singleOutputTerm(r.Results[0], 0); ok {
+			return t
 		}
 	}
 	return "<no single output>"
+}
+
+// singleOutputTerm: the term of the one element of a returned list - built here, or by an unexported helper whose
+// result is returned as it is (the helper's parameters stand for the arguments of the call).
+func (c *Ctx) singleOutputTerm(v ssa.Value, depth int) (string, bool) {
+	switch x := v.(type) {
+	case *ssa.Slice:
+		if els := varargElems(x); len(els) == 1 {
+			return c.term(els[0], 0), true
+		}
+	case *ssa.Extract:
+		call, ok := x.Tuple.(*ssa.Call)
+		if !ok || x.Index != 0 || depth > 2 {
+			return "", false
+		}
+		sc := call.Common().StaticCallee()
+		if sc == nil || !isLibFn(sc) || len(sc.Blocks) == 0 || !inlineableHelper(sc) || c.mutatesParams(sc, 0) {
+			return "", false
+		}
+		subst := map[*ssa.Parameter]string{}
+		substVals := map[*ssa.Parameter]ssa.Value{}
+		for i, p := range sc.Params {
+			if i < len(call.Common().Args) {
+				subst[p] = c.term(call.Common().Args[i], 0)
+				substVals[p] = call.Common().Args[i]
+			}
+		}
+		c.termSubst = append(c.termSubst, subst)
+		c.termSubstVals = append(c.termSubstVals, substVals)
+		defer func() {
+			c.termSubst = c.termSubst[:len(c.termSubst)-1]
+			c.termSubstVals = c.termSubstVals[:len(c.termSubstVals)-1]
+		}()
+		for _, r := range returnsOf(sc) {
+			if len(r.Results) == 0 {
+				continue
+			}
+			if t, ok := c.singleOutputTerm(r.Results[0], depth+1); ok {
+				return t, true
+			}
+		}
+	}
+	return "", false
 }
 
 // wrapperTerm: Apply's output is W(inputs[0]) for a library wrapper W whose own returned term is `want`.
@@ -1539,8 +1654,18 @@ func (c *Ctx) inlineTerm(f *ssa.Function, args []ssa.Value, depth int) (string, 
 			subst[p] = c.term(args[i], depth+1)
 		}
 	}
+	substVals := map[*ssa.Parameter]ssa.Value{}
+	for i, p := range f.Params {
+		if i < len(args) {
+			substVals[p] = args[i]
+		}
+	}
 	c.termSubst = append(c.termSubst, subst)
-	defer func() { c.termSubst = c.termSubst[:len(c.termSubst)-1] }()
+	c.termSubstVals = append(c.termSubstVals, substVals)
+	defer func() {
+		c.termSubst = c.termSubst[:len(c.termSubst)-1]
+		c.termSubstVals = c.termSubstVals[:len(c.termSubstVals)-1]
+	}()
 	var parts []string
 	for _, r := range rets {
 		if len(r.Results) == 0 {
@@ -1648,4 +1773,59 @@ func (c *Ctx) mutatesParams(f *ssa.Function, depth int) bool {
 	}
 	c.mutParamMemo[f] = res
 	return res
+}
+
+// booleanKernelTable walks a boolean kernel func(A, B tensor.Tensor) (tensor.Tensor, error) on two (2,2) tensors
+// holding every pair of truth values: the result has to hold the operator's truth table.
+func (c *Ctx) booleanKernelTable(kernel *ssa.Function, name string) (known bool, bad string) {
+	st := c.libInit()
+	want, ok := boolTables[name]
+	if !ok || kernel == nil || len(kernel.Params) != 2 || len(st.failed) > 0 {
+		return false, ""
+	}
+	heap := st.heap.clone()
+	mk := func(vals [4]bool) pval {
+		cont := make([]pval, 4)
+		for i, v := range vals {
+			cont[i] = pval{k: pBool, b: v}
+		}
+		return pval{k: pShaped, i: 900, j: heap.alloc([]pval{{k: pInt, i: 2}, {k: pInt, i: 2}}).i, m: heap.alloc(cont).i}
+	}
+	// positions: (0,0) (0,1) (1,0) (1,1) in the order of the truth tables
+	A, B := mk([4]bool{false, false, true, true}), mk([4]bool{false, true, false, true})
+	p := &pinterp{c: c, budget: 400000, objects: true, content: true, globals: st.globals, contentType: types.Typ[types.Bool]}
+	panicked := ""
+	p.onPanic = func(fn *ssa.Function, in ssa.Instruction, what string) { panicked = what + " at " + c.pos(in.Pos()) }
+	res, h := p.run(kernel, []pval{A, B}, 0, heap)
+	if panicked != "" {
+		return true, "the kernel panics on two (2,2) tensors of truth values: " + panicked
+	}
+	if p.aborted || len(res) != 2 || h == nil {
+		return false, ""
+	}
+	if nonNilKind(res[1].k) {
+		return true, "the kernel refuses two (2,2) tensors of truth values"
+	}
+	if res[1].k != pNil || res[0].k != pShaped || res[0].m == 0 {
+		return false, ""
+	}
+	cont, shl := h.lists[res[0].m], h.lists[res[0].j]
+	if len(cont) != 4 || len(shl) != 2 || shl[0].i != 2 || shl[1].i != 2 {
+		return false, ""
+	}
+	got := ""
+	for _, e := range cont {
+		if e.k != pBool {
+			return false, ""
+		}
+		if e.b {
+			got += "1"
+		} else {
+			got += "0"
+		}
+	}
+	if got != want {
+		return true, fmt.Sprintf("on the four pairs of truth values (00, 01, 10, 11) the kernel yields %s, %s requires %s", got, name, want)
+	}
+	return true, ""
 }
